@@ -20,7 +20,7 @@ inductive SKind where
   deriving DecidableEq, Repr
 
 def ArgKind.numeric : ArgKind → Bool
-  | .int | .u64 | .usz | .u32 | .flt => true
+  | .int | .u64 | .usz | .u32 | .flt | .pos => true
   | _ => false
 
 def SKind.fits : SKind → ArgKind → Bool
@@ -161,14 +161,15 @@ def rowsDescribe (src : List SRow) (model : List ShapeRow) : Bool :=
 def kindTexts : SKind → List Bytes
   | .k .int | .k .usz | .k .u32 => [Lit.notInt.text]
   | .k .flt => [Lit.notFloat.text]
+  | .k .pos => [Lit.notInt.text, Lit.syntax.text]
   | .k .u64 => [Lit.u64Empty.text, Lit.u64Invalid.text, Lit.u64Overflow.text]
-  | .num => [Lit.notInt.text, Lit.notFloat.text, Lit.u64Empty.text, Lit.u64Invalid.text, Lit.u64Overflow.text]
+  | .num => [Lit.notInt.text, Lit.notFloat.text, Lit.u64Empty.text, Lit.u64Invalid.text, Lit.u64Overflow.text, Lit.syntax.text]
   | _ => []
 
 /-- the error texts a slot can answer: its own text, else the generic text(s) of its kind -/
 def SArg.texts (a : SArg) : List Bytes :=
   match a.err with
-  | some t => [t]
+  | some t => [t, Lit.syntax.text]        -- the own text, and the range text of a `pos` slot
   | none => kindTexts a.kind
 
 def STail.texts : STail → List Bytes
@@ -188,6 +189,60 @@ def SRow.errTexts (r : SRow) : List Bytes :=
 /-- the prefixes of the `format!` errors the source row names (refused options, unknown words) -/
 def SRow.prefixes (r : SRow) : List Bytes :=
   r.opts.filterMap (·.reject) ++ (match r.unk with | .fmt p => [p] | _ => [])
+
+/-! ## the table-driven body a row denotes (`Props/C16Src.lean`: `body_of_described`, `resp_dsl_is_generated`) -/
+
+/-- a model slot without an error text of its own -/
+def Arg.isPlain (a : Arg) : Bool := a.onErr.isNone
+
+/-- no `num` kind in a row (the translator resolved every `.parse()`) -/
+def SArg.definite (s : SArg) : Bool := s.kind != .num
+
+/-- a slot without a text of its own and with a definite kind, as a model slot -/
+def SArg.plain? (s : SArg) : Option Arg :=
+  match s.kind, s.err with
+  | .k a, none => some { kind := a }
+  | _, _ => none
+
+def plainArgs? : List SArg → Option (List Arg)
+  | [] => some []
+  | s :: ss => match s.plain?, plainArgs? ss with
+    | some a, some as => some (a :: as)
+    | _, _ => none
+
+/-- the table-driven body a row denotes (rows with optional slots, options, finishing literals or several
+    constructors are not table-driven) -/
+def SRow.body? (r : SRow) : Option Body :=
+  match r.ctors, r.opt, r.opts, r.unk, r.flits, r.checks with
+  | [c], [], [], .na, [], [] =>
+    match plainArgs? r.slots with
+    | none => none
+    | some sl =>
+      match r.tail with
+      | .ignore => if sl.isEmpty then some (.const c) else none
+      | .none => some (.fixed c sl)
+      | .many a => (a.plain?).map (fun e => .many c sl e)
+      | .pairs a b => match a.plain?, b.plain? with
+        | some x, some y => some (.pairs c sl x y)
+        | _, _ => none
+      | _ => none
+  | _, _, _, _, _, _ => none
+
+/-- a table-driven body whose slots carry no error text of their own -/
+def Body.plainDsl : Body → Bool
+  | .const _ => true
+  | .fixed _ slots => slots.all Arg.isPlain
+  | .many _ pre each => pre.all Arg.isPlain && each.isPlain
+  | .pairs _ pre a b => pre.all Arg.isPlain && a.isPlain && b.isPlain
+  | .custom _ => false
+
+/-- every slot kind of the row is definite -/
+def SRow.definite (r : SRow) : Bool :=
+  r.slots.all SArg.definite &&
+    (match r.tail with
+     | .many a => a.definite
+     | .pairs a b => a.definite && b.definite
+     | _ => true)
 
 /-- a sub-command family as the source shows it: name, the text of a missing sub-command, and what an unknown
     sub-command `ZZZ` (no further argument) answers — `ok ctor toks…` or an error text -/
